@@ -167,6 +167,15 @@ theorem C11_members_page_sound (s : WL) (stage : Nat) (after : Option Nat) (limi
     · cases h; intro x hx; exact (List.mem_filter.mp (List.mem_of_mem_take hx)).1
     · exact absurd h (by simp)
 
+/-- Paging the `Members` query to exhaustion (any page size ≥ 1) enumerates exactly the stored map, in key order —
+in every reachable state of the four paging whitelists. (This is what the harness does to observe the stored set.) -/
+theorem C11_members_paging_complete {k : Kind} {m : InstMsg} {s0 : WL} (hk : k ≠ .immutable) (h : instantiate k m = .ok s0)
+    (ops : List Op) (stage pg : Nat) (hpg : 1 ≤ pg) :
+    walkPages (run s0 ops) stage pg ((mapOf (run s0 ops) stage).length + 1) none [] = mapOf (run s0 ops) stage := by
+  have hi := C11_invariant h ops
+  have hkind : (run s0 ops).kind ≠ .immutable := by rw [C11_run_kind, (inst_effect hk h).1]; exact hk
+  exact walkPages_complete _ stage pg hpg (sorted_mapOf hi stage) (valid_mapOf hi hkind stage) _ [] _ rfl (Nat.lt_succ_self _)
+
 /-! ## Adding and removing -/
 
 /-- "adding an existing member is skipped or rejected but never double-counted": after a successful `AddMembers`
